@@ -52,7 +52,8 @@ theorem afm_write_read_crlf (m : Metrics) (h : Representable m) : AFM.read (writ
 /-- C15, "independent writer": a text whose lines carry the same tokens as the lines `Write` prints –
 whatever white space separates them (blanks, tabs, Unicode spaces, several of them, trailing ones),
 `\n` or `\r\n` line ends, empty `;` groups or a missing final `;`, and the glyph lines in any
-order `es` – is read to the same value.  (`SameTokens` compares, line by line, `strings.Fields` of
+order `es` – is read to the same value; leading white space (an indented `EndCharMetrics` included)
+makes no difference either.  (`SameTokens` compares, line by line, `strings.Fields` of
 the line and of its `;`-separated groups.)  Not covered: another order of the header keys or of the
 `C`/`WX`/`N`/`B` groups inside a line (exercised by the differential tests only). -/
 theorem afm_independent_layout (m : Metrics) (h : Representable m) (es : List (Bytes × Glyph))
@@ -93,6 +94,55 @@ def exampleOtherLayout : Bytes :=
 example : AFM.read exampleOtherLayout = .ok exampleMetrics :=
   afm_independent_layout exampleMetrics exampleMetrics_representable exampleMetrics.glyphs.reverse
     (List.reverse_perm _) exampleOtherLayout (by decide +kernel)
+
+/-! ### an indented `EndCharMetrics` line ends the section (reader fix) -/
+
+/-- the line `EndCharMetrics` ends the character metrics section whatever white space precedes it
+(ASCII white space or any Unicode space rune, `WhiteSpace`), in every state -/
+theorem indented_EndCharMetrics (st : St) (ws : Bytes) (h : WhiteSpace ws) :
+    readLine st (ws ++ kEndCharMetrics) = .ok { st with charMetrics := false } := by
+  unfold readLine
+  rw [fields_whiteSpace ws _ h]
+  have : isEndCharMetrics (fields kEndCharMetrics) = true := by decide
+  rw [this]; rfl
+
+/-- the special case of blanks, tabs and other ASCII white space -/
+theorem indented_EndCharMetrics_ascii (st : St) (ws : Bytes) (h : ∀ b ∈ ws, isAsciiSpace b = true) :
+    readLine st (ws ++ kEndCharMetrics) = .ok { st with charMetrics := false } :=
+  indented_EndCharMetrics st ws (whiteSpace_of_ascii ws h)
+
+/-- more generally, indenting a line does not change how it is read -/
+theorem indented_line (st : St) (ws l : Bytes) (h : WhiteSpace ws) (h59 : 59 ∉ ws) :
+    readLine st (ws ++ l) = readLine st l := by
+  apply readLine_tokens
+  · exact fields_whiteSpace ws l h
+  · unfold groups
+    cases hs : splitOn 59 l with
+    | nil => exact absurd hs (splitOn_ne_nil 59 l)
+    | cons p ps =>
+      have : splitOn 59 (ws ++ l) = (ws ++ p) :: ps := by
+        clear h
+        induction ws with
+        | nil => simpa using hs
+        | cons b bs ih =>
+          have hb : b ≠ 59 := fun e => h59 (by simp [e])
+          have hbs : 59 ∉ bs := fun e => h59 (by simp [e])
+          simp [splitOn, hb, ih hbs]
+      rw [this, List.map_cons, List.map_cons, fields_whiteSpace ws p h]
+
+/-- a small AFM text: two glyphs, a ligature, one kerning pair -/
+def smallText : Bytes :=
+  [83, 116, 97, 114, 116, 70, 111, 110, 116, 77, 101, 116, 114, 105, 99, 115, 32, 52, 46, 49, 10, 70, 111, 110, 116, 78, 97, 109, 101, 32, 84, 10, 70, 117, 108, 108, 78, 97, 109, 101, 32, 84, 32, 82, 101, 103, 117, 108, 97, 114, 10, 83, 116, 97, 114, 116, 67, 104, 97, 114, 77, 101, 116, 114, 105, 99, 115, 32, 50, 10, 67, 32, 54, 53, 32, 59, 32, 87, 88, 32, 53, 48, 48, 32, 59, 32, 78, 32, 65, 32, 59, 32, 66, 32, 48, 32, 48, 32, 49, 48, 32, 49, 48, 32, 59, 32, 76, 32, 66, 32, 65, 66, 32, 59, 10, 67, 32, 54, 54, 32, 59, 32, 87, 88, 32, 54, 48, 48, 32, 59, 32, 78, 32, 66, 32, 59, 32, 66, 32, 48, 32, 45, 53, 32, 50, 48, 32, 50, 48, 32, 59, 10, 69, 110, 100, 67, 104, 97, 114, 77, 101, 116, 114, 105, 99, 115, 10, 83, 116, 97, 114, 116, 75, 101, 114, 110, 68, 97, 116, 97, 10, 83, 116, 97, 114, 116, 75, 101, 114, 110, 80, 97, 105, 114, 115, 32, 49, 10, 75, 80, 88, 32, 65, 32, 66, 32, 45, 50, 48, 10, 69, 110, 100, 75, 101, 114, 110, 80, 97, 105, 114, 115, 10, 69, 110, 100, 75, 101, 114, 110, 68, 97, 116, 97, 10, 69, 110, 100, 70, 111, 110, 116, 77, 101, 116, 114, 105, 99, 115, 10]
+
+/-- the same text with every line indented by two blanks -/
+def smallTextIndented : Bytes := unlines ((splitLines smallText).map (fun l => [32, 32] ++ l))
+
+/-- the indented text reads to the same metrics as the plain one; two glyphs and the kerning pair are
+there (before the fix the indented `EndCharMetrics` was not seen and the kerning data was lost) -/
+example : AFM.read smallTextIndented = AFM.read smallText ∧
+    (match AFM.read smallTextIndented with
+     | .ok m => decide (m.glyphs.length = 2) && decide (m.kern = [⟨[65], [66], -20⟩])
+     | _ => false) = true := by decide +kernel
 
 /-- what a cycle keeps: all names and text fields, the encoding, the kerning pairs, the flag, and of
 each glyph its name, width and ligatures -/
@@ -151,6 +201,9 @@ theorem roundM_representable (m : Metrics) (h : Representable m) : roundM m = m 
 #print axioms afm_closure_cycles
 #print axioms afm_independent_layout
 #print axioms afm_layout_blind
+#print axioms indented_EndCharMetrics
+#print axioms indented_EndCharMetrics_ascii
+#print axioms indented_line
 #print axioms roundM_keeps
 #print axioms roundM_numbers
 #print axioms exampleMetrics_representable
